@@ -1,9 +1,38 @@
-"""C07 — password-protected endpoints serve only requests carrying the exact credentials."""
+"""C07 — password-protected endpoints serve only requests carrying the exact credentials.
+
+Two parts: the http / tcpmux routes (Routes, shared with C06) and the password protected built-in services
+(Services: http_proxy, socks5, static_file client plugins through a real frps + frpc, frps dashboard, frpc admin API)."""
+import vlib
 import checks.routes_common as rc
+import checks.sessions_common as sc
+
+
+def services(v, drv, d, tier, seed):
+    mc = vlib.tlc("Services", "MC_Services.cfg", workers=4, timeout=600)
+    if not mc.ok:
+        raise vlib.Infra(f"ideal Services model violates {mc.violated}\n{mc.out[-1500:]}")
+    for dev in ("MC_Services_dev1.cfg", "MC_Services_dev2.cfg"):
+        r = vlib.tlc("Services", dev, workers=2, timeout=600)
+        if r.ok or r.violated != "ServedImpliesCreds":
+            raise vlib.Infra(f"the deviation in {dev} is not caught by ServedImpliesCreds: the invariant is vacuous")
+    v.add_cov(states=mc.distinct, transitions=mc.generated)
+    tf = d / "services.ndjson"
+    stats = {}
+    p = vlib.run_driver(drv, ["services", "-seed", seed, "-n", 12 if tier == "quick" else 120, "-out", tf], timeout=2400)
+    sc.parse_stats(p.stdout, stats)
+    ok = sc.validate(v, "Trace_Services", (vlib.SPEC / "Trace_Services.cfg").read_text(), tf, "services")
+    if ok:
+        evs = [e for e in vlib.read_ndjson(tf) if e.get("ev") in ("svc.conn", "svc.req")]
+        v.sample({"service_requests": [{k: e[k] for k in e if k not in ("t_us", "src", "seq", "g")} for e in evs[:10]]})
+    v.add_cov(evaluations=stats.get("req", 0), distinct_nontrivial=stats.get("negative", 0),
+              services_rule="connections to the real http_proxy / socks5 / static_file plugins (through a real frps + frpc), the frps dashboard and the frpc admin API: every class of credentials "
+                            "(absent, right, wrong password, other user, malformed, empty user, empty password) as first and as later request of a keep-alive connection, GET and CONNECT forms for "
+                            "http_proxy (CONNECT after a refused and after a served request too), plus seeded sequences; oracle = the protected target saw a connection / request, or protected content was returned",
+              services_stats=stats)
 
 
 def run(tier, seed):
-    rc.run("C07", tier, seed, "serve,serve,serve,tcpmuxauth")
+    rc.run("C07", tier, seed, "serve,serve,serve,tcpmuxauth", extra=services)
 
 
 def replay(path):
